@@ -1593,3 +1593,92 @@ package yqlib
 //@     invariant 0 <= rangeidx() && rangeidx() <= len(order) && len(order) == len(contents) / 2 && contents == old(node.Content) && forall(k, 0, rangeidx(), order[k] == k)
 //@   loop 2:
 //@     invariant 0 <= rangeidx() && rangeidx() <= len(order) && len(order) == len(contents) / 2 && len(sortedContent) == len(contents) && contents == old(node.Content) && forall(i, 0, len(order), 0 <= order[i] && order[i] < len(order)) && forall(i, 0, len(order), forall(k, 0, len(order), implies(order[i] == order[k], i == k))) && forall(i, 0, rangeidx(), sortedContent[2*i] == contents[2*order[i]] && sortedContent[2*i+1] == contents[2*order[i]+1])
+
+// Every implementation of Decoder.Decode keeps the promise its callers (stream and all-at-once evaluators) rely
+// on: it hands back a node or an error, never neither (C11: the callers dereference the node when err == nil).
+//@ func (*base64Decoder).Decode
+//@   props C10
+//@   nosafety
+//@   noframe
+//@   ensures @a-node-or-an-error {C11,C10} implies(result1 == nil, result0 != nil)
+
+//@ func (*csvObjectDecoder).Decode
+//@   props C10
+//@   nosafety
+//@   noframe
+//@   ensures @a-node-or-an-error {C11,C10} implies(result1 == nil, result0 != nil)
+//@   loop 1:
+//@     invariant implies(err == nil, len(contentRow) > 0)
+
+//@ func (*goccyYamlDecoder).Decode
+//@   props C10
+//@   nosafety
+//@   noframe
+//@   ensures @a-node-or-an-error {C11,C10} implies(result1 == nil, result0 != nil)
+
+//@ func (*jsonDecoder).Decode
+//@   props C10
+//@   nosafety
+//@   noframe
+//@   ensures @a-node-or-an-error {C11,C10} implies(result1 == nil, result0 != nil)
+
+//@ func (*luaDecoder).Decode
+//@   props C10
+//@   nosafety
+//@   noframe
+//@   ensures @a-node-or-an-error {C11,C10} implies(result1 == nil, result0 != nil)
+
+//@ func (*propertiesDecoder).Decode
+//@   props C10
+//@   nosafety
+//@   noframe
+//@   ensures @a-node-or-an-error {C11,C10} implies(result1 == nil, result0 != nil)
+
+//@ func (*tomlDecoder).Decode
+//@   props C10
+//@   nosafety
+//@   noframe
+//@   ensures @a-node-or-an-error {C11,C10} implies(result1 == nil, result0 != nil)
+
+//@ func (*uriDecoder).Decode
+//@   props C10
+//@   nosafety
+//@   noframe
+//@   ensures @a-node-or-an-error {C11,C10} implies(result1 == nil, result0 != nil)
+
+//@ func (*xmlDecoder).Decode
+//@   props C10
+//@   nosafety
+//@   noframe
+//@   ensures @a-node-or-an-error {C11,C10} implies(result1 == nil, result0 != nil)
+
+//@ func (*yamlDecoder).Decode
+//@   props C10
+//@   nosafety
+//@   noframe
+//@   ensures @a-node-or-an-error {C11,C10} implies(result1 == nil, result0 != nil)
+
+
+//@ func createStringScalarNode
+//@   props C10
+//@   nosafety
+//@   noframe
+//@   ensures @a-node {C11,C10} result != nil
+
+//@ func (*yamlDecoder).blankNodeWithComment
+//@   props C10
+//@   nosafety
+//@   noframe
+//@   ensures @a-node {C11,C10} result != nil
+
+//@ func (*luaDecoder).convertToYamlNode
+//@   props C10
+//@   nosafety
+//@   noframe
+//@   ensures @a-node {C11,C10} result != nil
+
+//@ func (*luaDecoder).decideTopLevelNode
+//@   props C10
+//@   nosafety
+//@   noframe
+//@   ensures @a-node {C11,C10} result != nil
